@@ -57,3 +57,48 @@ def run(lines_and_stops):
         res.append((ok, dict(line=line, stop=stop, lower=low, model_splitquote=got_sq, impl_splitquote=exp_sq,
                              model_splitparen=got_sp, impl_splitparen=exp_sp)))
     return res
+
+
+# ------------------------------------------------------------------ string_replace_map key bookkeeping
+def rm_lines(rng, n):
+    """lines over names, numbers, operators and parenthesised groups in which groups repeat, also doubly
+    parenthesised (no character literals or exponent constants: those stages come first in the real function)"""
+    atoms = ["n+1", "i", "j-2", "(n+1)", "k*m", "n + 1", "a, b", "(i)", "x(2)", ":", "1:n", "((k))"]
+    out = []
+    for _ in range(n):
+        parts = ["x ="]
+        for _ in range(rng.randrange(1, 14)):
+            parts.append(rng.choice(["a", "b2", "f", "g"]) + "(" + rng.choice(atoms) + ")")
+            parts.append(rng.choice(["+", "*", "-", ",", "//"]))
+        out.append(" ".join(parts[:-1]))
+    return out
+
+
+def run_replace_map(lines):
+    """model (ocaml sldriver RM) vs fparser.common.splitline.string_replace_map: same key sequence, exact restore"""
+    import re
+    from fparser.common import splitline
+    cmds, real = [], []
+    for l in lines:
+        segs = []
+        for it in splitline.splitparen(l):
+            c = it[1:-1].strip() if isinstance(it, splitline.ParenString) else None
+            if c is not None and not splitline._is_name(c):
+                segs.append("g" + c.encode("latin-1").hex())
+            else:
+                segs.append("p" + str(it).encode("latin-1").hex())
+        cmds.append("RM " + " ".join(segs))
+        newline, m = splitline.string_replace_map(l)
+        keys = [int(k) for k in re.findall(r"F2PY_EXPR_TUPLE_(\d+)", newline)]
+        real.append((keys, m(newline) == l))
+    p = subprocess.run([SLDRIVER], input="\n".join(cmds) + "\n", capture_output=True, text=True, timeout=300)
+    outs = [x for x in p.stdout.split("\n") if x.strip()]
+    dis = []
+    if len(outs) != len(lines):
+        return [dict(harness="driver answered %d of %d" % (len(outs), len(lines)))]
+    for l, o, (keys, ok) in zip(lines, outs, real):
+        ks, okm = o.split(";")
+        mk = [int(x) for x in ks.split()]
+        if mk != keys or (okm.strip() == "1") != ok:
+            dis.append(dict(line=l, model_keys=mk, real_keys=keys, model_restores=okm.strip(), real_restores=ok))
+    return dis
